@@ -365,18 +365,20 @@ func (c *Connection) GetData(key string) (interface{}, bool) {
 
 // JoinRoom adds this connection to a room
 func (c *Connection) JoinRoom(roomName string) {
-	c.roomsMu.Lock()
-	c.rooms[roomName] = true
-	c.roomsMu.Unlock()
-
 	// Add to room manager synchronously to ensure the room exists
 	// before any subsequent operations (like broadcast_to_room)
 	rm := c.hub.GetRoomManager()
 	if err := rm.AddConnectionToRoom(c, roomName); err != nil {
+		// A refused join (room full) must not leave the connection believing
+		// it is a member.
 		log.Printf("[WS] Failed to join room %s: %v", roomName, err)
-	} else {
-		log.Printf("[WS] Connection %s joined room %s", c.ID, roomName)
+		return
 	}
+
+	c.roomsMu.Lock()
+	c.rooms[roomName] = true
+	c.roomsMu.Unlock()
+	log.Printf("[WS] Connection %s joined room %s", c.ID, roomName)
 }
 
 // LeaveRoom removes this connection from a room
